@@ -96,6 +96,15 @@ def main():
                     getattr(N.aliasing_witness, "evaluations", 0), w is None, str(w or ""))
     if w is not None and not any(f.obligation.startswith("deep_update#freshness") for f in run.failures):
         run.fail(report.Failure("deep_update#aliasing(bounded)", "frame", f"real code: {w['input']} -> {w['why']}", {"witness": w}, True))
+    w = N.precedence_witness(SRC)
+    run.add_bounded("end-to-end precedence on the real builder and command line: defaults < configuration files in order (repeats count at each position) < explicit overrides / explicit options (also when equal to the default)",
+                    "9 file sequences over 3 files x override, 5 command lines", getattr(N.precedence_witness, "evaluations", 0), w is None, str(w or ""))
+    if w:
+        run.fail(report.Failure("native#precedence-of-the-last-explicit-source", "post", f"real code: {w['input']} -> {w['why']}", {"witness": w}, True))
+    w = N.fresh_process_history_witness(SRC)
+    run.add_bounded("a context created first in a FRESH process is unaffected by contexts for the other languages created after it", "5 first languages x all others", getattr(N.fresh_process_history_witness, "evaluations", 0), w is None, str(w or ""))
+    if w:
+        run.fail(report.Failure("LanguageContextBuilder#history-in-a-fresh-process(bounded)", "frame", f"real code: {w['input']} -> {w['why']}", {"witness": w}, True))
     w = N.builder_history_witness(quick=(args.tier != "thorough"))
     run.add_bounded("a context created earlier is unaffected by later builders (native, real LanguageContextBuilder)",
                     "sequences of 2-3 builders over {c, cpp/c++14, cpp/c++17-pmr, py} x flag overrides", getattr(N.builder_history_witness, "evaluations", 0),
